@@ -18,6 +18,7 @@ CONSTANTS Size,            \* read buffer size handed to NewLineReader
           MaxLen,          \* bound on the stream length
           DEV_FinishKeepsBuffer, \* reader.go Finish does not reset buf/off (matters for C16)
           MaxZeroReads,    \* bound on reads that return no bytes (stuttering reads)
+          MaxErrReads,     \* bound on reads that return their bytes TOGETHER with an error (io.Reader allows n > 0, err != nil)
           EmitCases        \* print every finished behaviour as a CASE line
 
 Bytes == {"n", "r", "x", "e", "f"}
@@ -27,7 +28,8 @@ VARIABLES stream,  \* all bytes handed out by the source so far
           cap,     \* cap(lr.buf)
           off,     \* lr.off
           out,     \* lines sent on the channel so far
-          chunks,  \* history: size of each Read (0 = a read that returned no bytes)
+          chunks,  \* history: size of each Read (0 = a read that returned no bytes; negative = that many bytes
+                   \* returned together with a non-nil error, which must be framed like any other bytes)
           done     \* Finish was called
 vars == <<stream, buf, cap, off, out, chunks, done>>
 
@@ -62,9 +64,10 @@ Drain(b, o, acc) ==
 Init == /\ stream = <<>> /\ buf = <<>> /\ cap = Size /\ off = 0
         /\ out = <<>> /\ chunks = <<>> /\ done = FALSE
 
-\* one ReadAndSend in which f.Read returned the k bytes bs
-Read(bs) ==
+\* one ReadAndSend in which f.Read returned the k bytes bs (werr: together with an error)
+ReadE(bs, werr) ==
   /\ ~done
+  /\ (werr => Cardinality({i \in 1..Len(chunks) : chunks[i] < 0}) < MaxErrReads)
   /\ Len(stream) + Len(bs) <= MaxLen
   /\ LET cap1 == IF cap - Len(buf) < Size THEN Len(buf) + Size ELSE cap   \* grow so Size bytes fit
          room == cap1 - Len(buf)
@@ -76,8 +79,9 @@ Read(bs) ==
               /\ cap' = cap1 - r.off
         /\ off' = 0
   /\ stream' = stream \o bs
-  /\ chunks' = Append(chunks, Len(bs))
+  /\ chunks' = Append(chunks, IF werr THEN -Len(bs) ELSE Len(bs))
   /\ UNCHANGED done
+Read(bs) == ReadE(bs, FALSE)
 
 \* f.Read returned (0, nil) or (0, err): only the capacity adjustment happens
 ReadZero ==
@@ -94,7 +98,7 @@ Finish ==
   /\ UNCHANGED <<stream, cap, chunks>>
 
 ByteSeqs(k) == [1..k -> Bytes]
-Next == \/ \E k \in 1..Size : \E bs \in ByteSeqs(k) : Read(bs)
+Next == \/ \E k \in 1..Size : \E bs \in ByteSeqs(k) : \E werr \in BOOLEAN : ReadE(bs, werr)
         \/ ReadZero
         \/ Finish
 Spec == Init /\ [][Next]_vars
